@@ -10,7 +10,7 @@ wt="$(mktemp -d /tmp/sci-eval-XXXXXX)"; rmdir "$wt"
 git -C /repo worktree add -q --detach "$wt" HEAD || exit 3
 cleanup() { git -C /repo worktree remove --force "$wt" >/dev/null 2>&1; rm -rf "$wt"; git -C /repo worktree prune; }
 trap cleanup EXIT
-export CARGO_TARGET_DIR=/tmp/seed/target-eval CARGO_NET_OFFLINE=true
+export CARGO_TARGET_DIR="${EVAL_CARGO_TARGET:-/tmp/seed/target-eval}" CARGO_NET_OFFLINE=true
 log="$out/confirm.log"; : > "$log"
 applies=yes; git -C "$wt" apply "$out/patch.diff" 2>>"$log" || applies=no
 suite=skipped; demo_with=skipped; demo_without=skipped
@@ -31,7 +31,7 @@ results=""
 if [ $applies = yes ]; then
   if [ "$mode" = all ]; then ids=$(seq -f "C%02g" 1 19); [ "$id" = C20 ] && ids="$ids C20"; else ids="$id"; fi
   for c in $ids; do
-    o="$(cd /verif && VERIF_REPO="$wt" VERIF_TARGET=/verif/monitor/target-mut ./check "$c" --tier quick --out "$out/evidence-$c.json" --replays "$out/replays-$c" 2>&1)"; rc=$?
+    o="$(cd /verif && VERIF_REPO="$wt" VERIF_TARGET="${EVAL_VERIF_TARGET:-/verif/monitor/target-mut}" ./check "$c" --tier quick --out "$out/evidence-$c.json" --replays "$out/replays-$c" 2>&1)"; rc=$?
     sigs="$(printf '%s\n' "$o" | grep -o 'signature=[^ ]*' | head -n 3 | tr '\n' ' ')"
     results="$results$c:$rc "
     printf '%s exit=%s %s\n' "$c" "$rc" "$sigs" >> "$out/checks.txt"
